@@ -81,6 +81,31 @@ def skip_names(draw, spec, allow_class_level=True):
     return draw(st.lists(st.sampled_from(pool), min_size=1, max_size=4, unique=True))
 
 
+KIND_TO_TOKEN = {"int": "int", "bool": "bool", "float": "float", "str": "str", "list": "list", "tuple": "tuple", "dict": "dict", "set": "set",
+                 "nd": "ndarray", "tensor": "tensor", "path": "Path", "module": "Module", "complex": "complex", "none": "NoneType"}  # fmt: skip
+
+
+def _present_tokens(spec, depth=0, out=None):
+    """type tokens of attribute values, with the depths at which they occur"""
+    out = {} if out is None else out
+    for _n, s in spec["attrs"]:
+        if s["t"] == "obj":
+            if s["cls"] == "NodeB":
+                out.setdefault("NodeB", set()).add(depth)
+            _present_tokens(s, depth + 1, out)
+        elif s["t"] in KIND_TO_TOKEN:
+            out.setdefault(KIND_TO_TOKEN[s["t"]], set()).add(depth)
+    return out
+
+
+@st.composite
+def type_lists(draw, root):
+    present = _present_tokens(root)
+    nested = sorted(t for t, d in present.items() if any(x >= 1 for x in d))
+    pool = TYPE_TOKENS + sorted(present) * 2 + nested * 4  # prefer types that really occur, esp. in nested objects
+    return draw(st.lists(st.sampled_from(pool), min_size=1, max_size=3, unique=True))
+
+
 @st.composite
 def cases(draw):
     root = draw(attr_objects(3))
@@ -92,7 +117,7 @@ def cases(draw):
         "store": draw(st.sampled_from(["zip", "dir"])),
         "save_names": draw(skip_names(root)) if mode in ("save", "both", "save+types") else [],
         "load_names": draw(skip_names(root)) if mode in ("load", "both") else [],
-        "types": draw(st.lists(st.sampled_from(TYPE_TOKENS), min_size=1, max_size=3, unique=True)) if mode in ("save+types", "types") else [],
+        "types": draw(type_lists(root)) if mode in ("save+types", "types") else [],
         "form": draw(st.sampled_from(["list", "tuple", "bare"])),
     }
     return case
@@ -157,6 +182,8 @@ def check(ctx, case):
     nontrivial = multi_depth or (removed_by_type >= 1 and kept_by_type >= 1)
     classes = ["mode:" + case["mode"], "store:" + case["store"], "form:" + case["form"]]
     classes += ["type:" + t for t in tt]
+    if types and any(any(x >= 1 for x in d) for t, d in _present_tokens(root).items() if t in tt):
+        classes.append("type_skip_hits_nested_object")
     if multi_depth:
         classes.append("skipped_name_at_>=2_depths")
     if any(n in CLASS_LEVEL for n in all_skipped):
